@@ -4,6 +4,7 @@ import KyupyVerif.Proofs.TransformStable
 import KyupyVerif.Proofs.TransformSem6
 import KyupyVerif.Proofs.Substitute4
 import KyupyVerif.Proofs.SubstituteRes
+import KyupyVerif.Proofs.SubstSem9
 /-! # C10 — copy, pickle, fork elimination and cell substitution preserve function
 
 Objects of the theorems: the hand-written models `KV.Transform` of `Circuit.copy`, `__getstate__/__setstate__`,
@@ -335,18 +336,83 @@ theorem substitute_wiring (h m h' : NNet) (c : Nat) (hw : h.wf = true) (hc : c <
     obtain ⟨k, hk⟩ := (mem_filterMap_id _ l).mp hmem
     exact hne (w.fwdIn c hc k l hk).2.1
 
-/- FULL STATEMENT (`substitute_sem`, not proved; decided by the oracle of harness/c10.py by simulation before/after):
-   let `F : (inputs : List α) → (outputs : List α)` be the function the implementation `m` computes at its output ports
-   from its input ports (its unique consistent labelling, C01) — more generally, with state elements, `F` also takes the
-   assignment of the implementation's flip-flops/latches and also returns their captured values.  For every host `h`,
-   cell `c`, `substitute h c m = some h'` and every labelling `v` of the lines of `h` that is consistent at every line not
-   driven by `c` and carries `F (values at the in-lines of c)` at the out-lines of `c` (the cell interpreted as the
-   implementation's function; unconnected input pins read `z`), there is a labelling `v'` of `h'` — `v` on the host's
-   surviving lines renamed by the deletions, the implementation's internal values on the copied lines — that is
-   consistent for `h'` (`consistentB`), with `capturesOf h' v'` = `capturesOf h v` at the ports and state elements of
-   `h` (position-wise along `s_nodes`, which `substitute_snames` shows to be unchanged in the documented case), the
-   designated state element capturing what `F` returns for it.
-   PROVED below: the part of this statement that concerns the host outside the cell. -/
+/-- `substitute` in regular use returns a well-formed circuit (side conditions as for `substitute_sem`) -/
+theorem substitute_wf (h m h' : NNet) (c : Nat) (hw : h.wf = true) (mw : m.wf = true) (hc : c < h.net.nodes.size)
+    (hio : h.net.io.contains c = false) (hcf : (h.net.node c).isFork = false)
+    (hr : regularB h c m = true) (hok : implOKB m = true) (he : substitute h c m = some h') : h'.wf = true := by
+  obtain ⟨sh, dn, map, ct⟩ := substitute_cert h m h' c (WF.of_wf hw) (WF.of_wf mw) hc hio hcf hr hok he
+  exact wf_of_WF ct.wf'
+
+/-- **`substitute` preserves the function** (full semantic statement, regular use).
+    Vocabulary (Model/SubstSem.lean, Proofs/SubstSem1.lean): `ConsOff nn S an v` — the labelling `v` of the lines of `nn`
+    under the node-indexed assignment `an` satisfies the equation (`lineEq`, Model/Net.lean) of every line whose driver
+    is not in the set `S` of "holes" (`S = ∅`: `v` is consistent, `consOff_consistent`); `ImplMatches h c m sh anm vm v` —
+    **the relational meaning of the cell**: `(anm, vm)` is a consistent labelling of the implementation `m` (the line
+    of an input port whose instance pin is unconnected being absent: `cutIns m (deadLine h c m sh)`), every port of `m` is
+    assigned the value of the host line at its instance pin (`portVal`: `z` for an unconnected pin and for output ports),
+    and output line `k` of `m` carries the value of the host line at output pin `k` of the instance.
+    For every well-formed host `h` and implementation `m`, cell `c` (no port, no fork), in regular use (`regularB`) and
+    under the side conditions `implOKB m` (designated cell no port, ports distinct, no port a flip-flop/latch, driven
+    ports that are read inside are forks), with `h' = substitute h c m`:
+    * `h'` is well-formed; `node_map` (`map`) is injective, sends the designated cell to `c` and everything else behind the
+      host's nodes, keeps the kinds (ports become forks); ports and all other nodes of the host are untouched; the lines
+      of `h'` are the host's lines followed by the copied lines (`copiedLines`);
+    * **(1)** every labelling `v'` of `h'` that is consistent outside `S` (any set of host nodes other than `c`) is, on the
+      host's lines, consistent for `h` outside `S ∪ {c}`, and there is a labelling `(anm, vm)` of the implementation with
+      `ImplMatches … anm vm v'` that agrees with `v'` on the copied lines and with `an'` on the copied nodes — the cell
+      behaves as its implementation; every copied node reads, pin by pin, what its original reads;
+    * **(2)** conversely every labelling `v` of `h` that is consistent outside `S ∪ {c}` together with any `(anm, vm)` with
+      `ImplMatches … anm vm v` glues to a labelling of `h'` that is consistent outside `S`, equals `v` on the host's lines
+      and `vm` on the copied lines.
+    No acyclicity, no uniqueness of labellings and no evaluation order is needed; multi-output cells, outputs read
+    inside the implementation, inputs with one or many readers, state elements inside the implementation and
+    unconnected input pins are covered uniformly. -/
+theorem substitute_sem {α : Type _} (h m h' : NNet) (c : Nat) (hw : h.wf = true) (mw : m.wf = true) (hc : c < h.net.nodes.size)
+    (hio : h.net.io.contains c = false) (hcf : (h.net.node c).isFork = false)
+    (hr : regularB h c m = true) (hok : implOKB m = true) (he : substitute h c m = some h')
+    (z : α) (neg : α → α) (prim : String → α → α → α → α → α) :
+    ∃ (sh : Shape) (dn : Nat) (map : Array (Option Nat)),
+      implShape m = some sh ∧ sh.des = some dn ∧ h'.wf = true ∧
+      -- `node_map`
+      map.getD dn none = some c ∧
+      (∀ j x, map.getD j none = some x → j < m.net.nodes.size ∧ (x = c ∨ h.net.nodes.size ≤ x) ∧ x < h'.net.nodes.size ∧
+        (h'.net.node x).kind = if j ∈ m.net.io then "__fork__" else (m.net.node j).kind) ∧
+      (∀ j1 j2 x, map.getD j1 none = some x → map.getD j2 none = some x → j1 = j2) ∧
+      -- frame
+      h'.net.io = h.net.io ∧ (∀ d, d < h.net.nodes.size → d ≠ c → h'.net.node d = h.net.node d) ∧
+      h'.net.lines.size = h.net.lines.size + (copiedLines m map).length ∧
+      -- (1) result ⇒ host with the cell meaning its implementation
+      (∀ (S : Nat → Prop), (∀ s, S s → s < h.net.nodes.size ∧ s ≠ c) → ∀ an' v' : Nat → α,
+        ConsOff h' S z neg prim an' v' →
+        ConsOff h (fun d => S d ∨ d = c) z neg prim an' v' ∧
+        ∃ anm vm, ImplMatches h c m sh z neg prim anm vm v' ∧
+          (∀ j x, j ∉ m.net.io → map.getD j none = some x → anm j = an' x) ∧
+          (∀ t (ht : t < (copiedLines m map).length), vm (copiedLines m map)[t] = v' (h.net.lines.size + t)) ∧
+          (∀ j x k, map.getD j none = some x → ¬ (j ∈ m.net.io ∧ (m.net.node j).ins.length = 0) →
+            ((h'.net.node x).inPin k).map v' = (((cutIns m (deadLine h c m sh)).net.node j).inPin k).map vm)) ∧
+      -- (2) host with the cell meaning its implementation ⇒ result (gluing)
+      (∀ (S : Nat → Prop) (an v anm vm : Nat → α), ConsOff h (fun d => S d ∨ d = c) z neg prim an v →
+        ImplMatches h c m sh z neg prim anm vm v →
+        ∃ an' v', ConsOff h' S z neg prim an' v' ∧ (∀ l, l < h.net.lines.size → v' l = v l) ∧
+          (∀ d, d < h.net.nodes.size → d ≠ c → an' d = an d) ∧
+          (∀ j x, j ∉ m.net.io → map.getD j none = some x → an' x = anm j) ∧
+          (∀ t (ht : t < (copiedLines m map).length), v' (h.net.lines.size + t) = vm (copiedLines m map)[t]) ∧
+          (∀ j x k, map.getD j none = some x → ¬ (j ∈ m.net.io ∧ (m.net.node j).ins.length = 0) →
+            ((h'.net.node x).inPin k).map v' = (((cutIns m (deadLine h c m sh)).net.node j).inPin k).map vm)) := by
+  obtain ⟨sh, dn, map, ct⟩ := substitute_cert h m h' c (WF.of_wf hw) (WF.of_wf mw) hc hio hcf hr hok he
+  exact ⟨sh, dn, map, ct.shape, ct.des, wf_of_WF ct.wf', ct.mapDn,
+    fun j x hm => ⟨ct.mapM j x hm, ct.mapGe j x hm, ct.mapLt j x hm, ct.kind' j x hm⟩, ct.mapInj, ct.io', ct.frameNode, ct.lsize,
+    fun S hS an' v' hc' => ct.forward z neg prim S hS an' v' hc',
+    fun S an v anm vm hH hM => ct.backward z neg prim S an v anm vm hH hM⟩
+
+/-- `ConsOff` without holes is consistency, and consistency in the node-indexed form is `consistentB` (Model/Net.lean,
+    the gate-by-gate meaning used by C01): the labelling as an array, the assignment by `s_nodes` position -/
+theorem consOff_consistent {α : Type _} [BEq α] [LawfulBEq α] (nn : NNet) (hw : nn.wf = true) (z : α) (neg : α → α)
+    (prim : String → α → α → α → α → α) (asg : Nat → α) (v : Array α) :
+    consistentB nn.net z neg prim asg v = true ↔
+      ConsOff nn (fun _ => False) z neg prim (fun n => asg (nn.net.sNodes.idxOf n)) (fun l => v.getD l z) := by
+  rw [consOff_false]; exact consistentB_iff_wf (WF.of_wf hw) z neg prim asg v
+
 /-- every line of the host that is not driven by the substituted cell keeps its equation literally: for every labelling
     and every assignment, `lineEq` of the result at that line equals `lineEq` of the host (same driver, same pin, same
     driver record, hence same gate function of the same in-lines) -/
@@ -459,6 +525,46 @@ example : (substitute exHost 2 exImpl).map (fun r => (r.net.lines.toList.drop 7,
   decide +kernel
 example : (substitute exHost 2 exImpl).map (fun r => (r.net.line 1, r.net.line 2, r.net.line 3, r.net.line 4)) =
     some (⟨6, 0, 7, 0⟩, ⟨1, 0, 9, 1⟩, ⟨8, 1, 3, 0⟩, ⟨10, 0, 4, 0⟩) := by decide +kernel
+
+/-- hypotheses of `substitute_wf` / `substitute_sem` are satisfiable (`exHost`, cell 2, `exImpl`: two outputs, an output read
+    inside, inputs with one and with two readers); the result is well-formed, has 5 copied lines, and a consistent
+    labelling of it exists (the evaluator's), so direction (1) of `substitute_sem` is not vacuous -/
+example : exHost.wf = true ∧ exImpl.wf = true ∧ exHost.net.io.contains 2 = false ∧ (exHost.net.node 2).isFork = false ∧
+    regularB exHost 2 exImpl = true ∧ implOKB exImpl = true ∧
+    (substitute exHost 2 exImpl).map (fun r => (r.wf, r.net.lines.size,
+      consistentB r.net false (!·) prim2 (fun j => j == 0 || j == 4) (evalAll r.net false (!·) prim2 (fun j => j == 0 || j == 4)))) =
+      some (true, 12, true) := by decide +kernel
+
+/-- regular use with an unconnected input pin: the instance `u` has pin `A` only; line 2 of `exImpl` (from port `B` to the
+    `NAND2`) is absent (`deadLine`), the copied `NAND2` has one pin — `substitute_sem` relates the result to
+    `cutIns exImpl …`, the implementation without that line ("kyupy's own reading of a missing pin") -/
+def exHostI : NNet :=
+  { net := { nodes := #[⟨"input", [], [some 0]⟩, ⟨"AOCELL", [some 0], [some 1, some 2]⟩, ⟨"output", [some 1], []⟩,
+                        ⟨"output", [some 2], []⟩],
+             lines := #[⟨0, 0, 1, 0⟩, ⟨1, 0, 2, 0⟩, ⟨1, 1, 3, 0⟩], io := [0, 2, 3] },
+    names := #["a", "u", "z", "y"] }
+example : exHostI.wf = true ∧ regularB exHostI 1 exImpl = true ∧ (exHostI.net.node 1).isFork = false ∧
+    (implShape exImpl).map (fun sh => (List.range exImpl.net.lines.size).filter (deadLine exHostI 1 exImpl sh)) = some [2] ∧
+    (substitute exHostI 1 exImpl).map (fun r => (r.wf, (r.net.node 6).kind, (r.net.node 6).ins)) =
+      some (true, "NAND2", [some 4]) := by decide +kernel
+
+/-- the side condition "the designated cell is not a port" (`implOKB`) cannot be dropped from `substitute_wf`: a
+    Verilog-style feed-through `input A -> fork a -> output X` as implementation makes the port cell `A` the designated
+    cell; the host cell takes kind `input`, its copied line to the fork `u~a` (line 2) loses the fork's pin 0 to the
+    instance's input line (line 0) — regular use, but the result is not a well-formed circuit (the real `substitute`
+    returns the same dump, and `NNet.wf` of the real result is false: checked through the driver commands `subst` / `xform wf`) -/
+def exFeed : NNet :=
+  { net := { nodes := #[⟨"input", [], [some 0]⟩, ⟨"__fork__", [some 0], [some 1]⟩, ⟨"output", [some 1], []⟩],
+             lines := #[⟨0, 0, 1, 0⟩, ⟨1, 0, 2, 0⟩], io := [0, 2] },
+    names := #["A", "a", "X"] }
+def exFeedHost : NNet :=
+  { net := { nodes := #[⟨"input", [], [some 0]⟩, ⟨"CELL", [some 0], [some 1]⟩, ⟨"output", [some 1], []⟩],
+             lines := #[⟨0, 0, 1, 0⟩, ⟨1, 0, 2, 0⟩], io := [0, 2] },
+    names := #["i", "u", "o"] }
+theorem substitute_designated_port_not_wf :
+    exFeed.wf = true ∧ exFeedHost.wf = true ∧ regularB exFeedHost 1 exFeed = true ∧ implOKB exFeed = false ∧
+    (substitute exFeedHost 1 exFeed).map (fun r => (r.wf, (r.net.node 1).kind, r.net.line 2, (r.net.node 3).ins)) =
+      some (false, "input", ⟨1, 0, 3, 0⟩, [some 0]) := by decide +kernel
 
 /-- the removing cases are modelled too (they are covered by `substitute_ports` and `substitute_state_perm`): with output
     pin 1 of the instance unconnected the `OR2` of `exImpl` dangles and is removed; with an implementation that ignores
